@@ -707,6 +707,13 @@ func checkSpec(hdir, prop, tier, only string, verbose bool, seed int64, acc *acc
 		}
 	}
 	for _, l := range lines {
+		if strings.HasPrefix(l, "KNOWN-FINDING:") {
+			// one line per listed finding, however many entries / harness directories reach it
+			if printedKnown[l] {
+				continue
+			}
+			printedKnown[l] = true
+		}
 		fmt.Println(l)
 	}
 	if len(problems) > 0 {
@@ -841,3 +848,5 @@ func writeEvidence(spec *Spec, tier string, seed int64, P *sym.Program, results 
 }
 
 func round(f float64) float64 { return float64(int(f*100)) / 100 }
+
+var printedKnown = map[string]bool{}
